@@ -27,6 +27,7 @@ ASSUMPTIONS = [
     "the reference environment is the live function table plus true/false on the logic pathway",
 ]
 MIN_NONTRIVIAL_FRACTION = 0.2
+RULE += " Round 7: the names true/false occur as atoms on every pathway (Python rejects them outside the logic pathway), and a `pre` evaluation may run on a pathway of its own (names bound for the logic pathway must not leak into later evaluations by other engines)."
 RULE += " Added after the seeded rounds: " + 'Cases may carry `pre` (expressions evaluated first by fresh engines: module-level caches); string literals include runs of blanks, tabs, NBSP and other Unicode spaces.'
 RULE += ' String contents are also drawn from arbitrary Unicode (operator look-alikes, typographic quotes, full-width digits, zero-width characters); numeric literals include non-dyadic and extreme floats (0.1, 0.3, 1e16, 1e308, -0.0) so that grouping and intermediate overflow are observable.'
 RULE += " Wide, flat constructs: unparenthesised operator chains, comparison chains, argument lists and literals of 3..120 items (lengths straddle the engine's nesting limit of 50: beyond it a refusal is fine, a different value is not)."
@@ -73,7 +74,8 @@ def _num(draw, depth):
 @st.composite
 def _boolx(draw, depth):
     if depth <= 0:
-        return draw(st.one_of(_bool, _int))
+        # the names true / false exist on the logic pathway only; elsewhere Python (and so the engine) must reject them
+        return draw(st.one_of(_bool, _bool, _int, _int, st.sampled_from(["true", "false"])))
     k = draw(st.integers(0, 9))
     if k <= 3:
         n = draw(st.integers(1, 3))
@@ -198,7 +200,9 @@ def _wide(draw):
 def strategy(tier):
     expr = st.integers(0, 11).flatmap(lambda d: _wide() if d == 0 else _any(1 + d % 4))
     # `pre`: other expressions evaluated first (fresh engines, same process) - a result must not depend on what was evaluated before
-    pre = st.one_of(st.just([]), st.just([]), st.lists(st.one_of(_num(1), _call(1), _any(2)), min_size=1, max_size=2))
+    # (an item may name its own pathway: names bound for one pathway must not survive into an evaluation on another)
+    pre_item = st.one_of(_num(1), _call(1), _any(2), st.tuples(st.one_of(_boolx(1), _any(2)), st.sampled_from(["logic", "logic", "math", "auto"])).map(list))
+    pre = st.one_of(st.just([]), st.just([]), st.lists(pre_item, min_size=1, max_size=2))
     return st.fixed_dictionaries({"expr": expr, "pathway": st.sampled_from(["auto", "auto", "math", "math", "logic", "logic", "transform"]), "pre": pre})
 
 
@@ -223,6 +227,9 @@ _ORDER_PAIRS = [("'ab' * 2", "'ab' * 2.0"), ("2 ** 53 + 1", "2.0 ** 53 + 1"), ("
                 ("7 // 2", "7.0 // 2"), ("max(1, 2)", "max(1.0, 2)"), ("2 * 3", "2.0 * 3"), ("(1, 2) + (3,)", "[1, 2] + [3]"), ("round(2.5)", "round(2.5, 0)")]
 
 
+_NAME_CORNERS = ["true + 1", "true", "false == 0", "(true and 1)", "max(true, 0)", "(not false)", "[true, false]", "(1 if true else 2)", "abs(false)"]
+
+
 def enumerate_cases(tier):
     for ex in _CORNERS:
         for pw in ("auto", "math", "logic"):
@@ -230,6 +237,10 @@ def enumerate_cases(tier):
     for a, b in _ORDER_PAIRS:
         for first, second in ((a, b), (b, a)):
             yield {"expr": second, "pathway": "math", "pre": [first]}
+    for ex in _NAME_CORNERS:
+        for pw in ("auto", "math", "logic"):
+            for pre in ([], [["true", "logic"]], [["1 < 2", "logic"]], [["true and false", "auto"]], [["false", "logic"], ["2 + 2", "math"]]):
+                yield {"expr": ex, "pathway": pw, "pre": pre}
 
 
 def _eq(a, b):
@@ -261,9 +272,15 @@ def judge(case):
     out = Outcome()
     expr = case["expr"]
     pw = {"auto": None, "math": MetabolicPathway.GLYCOLYSIS, "logic": MetabolicPathway.KREBS_CYCLE, "transform": MetabolicPathway.BETA_OXIDATION}[case["pathway"]]
+    pws = {"auto": None, "math": MetabolicPathway.GLYCOLYSIS, "logic": MetabolicPathway.KREBS_CYCLE}
     for other in case.get("pre", []):
+        if isinstance(other, list):
+            other, opw = other[0], pws[other[1]]
+            out.label("pre-on-own-pathway")
+        else:
+            opw = pw if pw != MetabolicPathway.BETA_OXIDATION else None
         try:
-            Mitochondria(silent=True, max_ros=1000.0).metabolize(other, pw if pw != MetabolicPathway.BETA_OXIDATION else None)
+            Mitochondria(silent=True, max_ros=1000.0).metabolize(other, opw)
         except Exception as e:
             out.fail("raise:%s" % type(e).__name__, "metabolize raised %s: %s" % (type(e).__name__, e), {"expr": other})
             return out
